@@ -492,7 +492,7 @@ class CFG:
                     path.append((cur, lab))
                     cur = p
                 return list(reversed(path))
-            if avoid(n) and n not in starts:
+            if avoid(n):
                 continue
             for s, lab in n.succ:
                 if s not in prev and edge_ok(n, s, lab):
